@@ -19,6 +19,15 @@ ENGINES = [
 ]
 NOT_APPLICABLE = {}
 CHECKS = {
+    "C03": dict(
+        engine="hist (on zsym)", level="other", design_ref="DESIGN.md section 4 / C03",
+        technique="symbolic execution (zsym/z3) of edit-then-serialize histories over a model family; oracle: structural isomorphism with a value bijection after the round trip, serialization idempotent and side-effect free; per-path native re-execution",
+        text=("Sources: the 18 family models and the 7 C01 seed states wrapped into models. A symbolic operation of the C01 alphabet (symbolic operands) edits the model, then symbolic variations choose two initializers sharing ONE tensor object, the tensor "
+              "implementation (array / proto-backed / lazy / external without file), the IR version 3..13 and metadata/doc strings on every carrier. On every path whose model is serializable and name-resolvable: to_proto twice gives equal protos; the public snapshot of "
+              "every object is unchanged by to_proto except initializer tensor names; from_proto(to_proto(m)) is isomorphic to m - node order, identifiers, attributes incl. nested graphs, value names/types/shapes, initializer bytes, doc strings, metadata, functions, opset "
+              "imports - with a bijection of value objects so that a use re-wired to a same-named value of another scope is detected."),
+        note="Trusted: z3; proxies cross-checked per path; scalars reach protobuf as concrete values of the path (C boundary). Precondition paths (duplicate names in a scope, dangling uses, initializers without tensor) are skipped and counted; one edit per history.",
+    ),
     "C18": dict(
         engine="hist (on zsym) + euf", level="translation_validation", design_ref="DESIGN.md section 4 / C18",
         technique="symbolic execution (zsym/z3) of convenience.extract / analyze_implicit_usage over sources with symbolic captures and symbolic cuts; independent backward slice + EUF equivalence (z3) of the extracted graph with the source region",
